@@ -362,7 +362,7 @@ def correspondence(ctx):
     async def run_rdf(n):
         for _ in range(n):
             cases.append(await _rdf_case(rng, cc.HashIds()))
-    cc.run(run_rdf(ctx.scale(150, 1500)))
+    cc.run(run_rdf(ctx.scale(100, 1500)))
     ctx.rdf_cases = cases
     cl = []
 
@@ -374,7 +374,7 @@ def correspondence(ctx):
     fin = cc.run(_finalize_cases(ctx, ctx.scale(60, 600)))
     ctx.fin_cases = fin
     # the same three entry points on trees with symbolic links (harness/clean_own.py); judged by the oracle
-    own = co.generate_families(ctx, ctx.scale(60, 600), ctx.scale(30, 300), ctx.scale(30, 300))
+    own = co.generate_families(ctx, ctx.scale(40, 400), ctx.scale(20, 200), ctx.scale(20, 200))
     ctx.own_cases = own
     # E1a
     checks = [_rdf_check(c) for c in cases]
@@ -437,21 +437,29 @@ def correspondence(ctx):
 
 
 def _own_correspondence(ctx, own):
-    """The link-aware model against the real code on the trees with symbolic links."""
-    fams = [("rdf", "E1a-links:remove_deletable_files", co.rdf_model_check, co.rdf_witness, 60),
-            ("clean", "E1b-links:clean", co.clean_model_check, co.clean_witness, 30),
-            ("fin", "E1c-links:finalize", cc.finalize_check, co.finalize_witness, 30)]
-    for key, name, check, wit, chunk in fams:
+    """The link-aware model against the real code on the trees with symbolic links (one Coq evaluation for the
+    three families)."""
+    fams = [("rdf", "E1a-links:remove_deletable_files", co.rdf_model_check, co.rdf_witness),
+            ("clean", "E1b-links:clean", co.clean_model_check, co.clean_witness),
+            ("fin", "E1c-links:finalize", cc.finalize_check, co.finalize_witness)]
+    checks, origin = [], []
+    for key, name, check, wit in fams:
         cases = [c for c in own[key] if co.model_ok(c["before"])]
         ctx.count(f"{name.split(':')[0]}_cases", len(cases))
         ctx.count(f"{name.split(':')[0]}_outside_model_assumptions", len(own[key]) - len(cases))
-        checks = [check(c) for c in cases]
-        bad = _model_cases(ctx, "own" + key, checks, chunk)
-        ctx.traces_validated += len(checks) - len(bad)
-        for i in bad[:3]:
+        for c in cases:
+            checks.append(check(c))
+            origin.append((name, wit, c))
+    bad = _model_cases(ctx, "own", checks, 100)
+    ctx.traces_validated += len(checks) - len(bad)
+    reported = {}
+    for i in bad:
+        name, wit, c = origin[i]
+        reported[name] = reported.get(name, 0) + 1
+        if reported[name] <= 3:
             _report(ctx, "correspondence", name, name + ":model-differs",
                     "the real code and model/Clean.v disagree on a tree with symbolic links (resulting tree, REMOVE events, "
-                    "graph or escaping exception)", wit(cases[i]))
+                    "graph or escaping exception)", wit(c))
 
 
 def oracle(ctx):
@@ -464,10 +472,10 @@ def oracle(ctx):
         _report(ctx, "oracle", name, sig, detail, witness)
     # ownership with symbolic links, implementation only (harness/clean_own.py): remove_deletable_files on hand-made
     # queues, Builder.finalize and clean.clean() on projects grown through the Workflow API, the real serve()
-    co.run_families(ctx, ctx.scale(60, 600), ctx.scale(30, 300), ctx.scale(30, 300), c06=True,
+    co.run_families(ctx, ctx.scale(40, 400), ctx.scale(20, 200), ctx.scale(20, 200), c06=True,
                     res=getattr(ctx, "own_cases", None))
     if cc.e3_available():
-        co.run_e3_replace(ctx, ctx.scale(12, 52), c06=True)
+        co.run_e3_replace(ctx, ctx.scale(8, 52), c06=True)
     for c in getattr(ctx, "rdf_cases", []):
         for sig, detail in _rdf_oracle(c):
             emit("remove_deletable_files", sig, detail, {k: c[k] for k in ("desc", "qfiles", "qdirs", "before", "after")})
